@@ -4,6 +4,7 @@ Equality of field sets for all graphs/orders is not decided. Decided:
 
 R2.1  parsed structure is never discarded: after `schema_ir = IRSchema(...)` every normal return of _parse_schema
       returns that object                                                                    [finding on the pinned tree]
+R2.10 the type resolvers look schemas up by the exact IR name (no normalising function on the key)
 R2.2  cycle decisions do not depend on name *content*: in unified_cycle_check schema names may only be compared for
       equality / membership, never by substring / prefix / suffix                            [findings on the pinned tree]
 R2.3  no property is dropped on the way: _parse_properties assigns every key (two enumerated skips), the allOf merge
@@ -98,6 +99,7 @@ def run(repo: Repo, rep: Report, tier: str) -> None:
     # ---------------------------------------------------------------- R2.9 the recursion context is threaded through every recursive parse
     threading_rule(repo, rep, "R2.9")
 
+    rule_exact_registry_lookups(repo, rep, "R2.10")
     # ---------------------------------------------------------------- R2.2 name content
     ucd = repo.module("core.parsing.unified_cycle_detection")
     ucc = ucd.func("unified_cycle_check")
@@ -430,13 +432,48 @@ def _name_content(fn: Function, rep: Report) -> int:
         n += 1
         st = _enclosing_assign(node)
         var = norm(st.targets[0]) if st is not None else "a branch"
-        rep.violation("R2.2", f"{fn.module.relpath}:{fn.name} name-content test {kind} {lit!r}", f"{fn.fq}|name-content|{kind}|{lit}",
+        # the conjuncts this test is combined with are part of the finding's identity: a heuristic whose exemptions are changed is a
+        # different heuristic (and is reported again), while re-ordering the conjuncts is not
+        ctx = _conjunct_context(node)
+        rep.violation("R2.2", f"{fn.module.relpath}:{fn.name} name-content test {kind} {lit!r}" + (f" with {ctx}" if ctx else ""), f"{fn.fq}|name-content|{kind}|{lit}|with={ctx}",
                       f"a cycle-handling decision (`{var}`) depends on the *text* of schema names (`{norm(node)[:60]}`): whether a placeholder is stored over a "
                       "schema's own entry / a schema is marked circular changes when schemas are renamed (e.g. a schema whose name is a prefix of another, or "
                       f"contains {lit!r})", fn.loc(node))
     if n == 0:
         rep.ok("R2.2", f"{fn.module.relpath}:{fn.name}", "schema names are only compared for equality / membership", fn.loc())
     return n
+
+
+def _conjunct_context(node: ast.AST) -> str:
+    """kinds of the other conjuncts of the innermost `and` the test belongs to (sorted, structural: no local names)"""
+    cur: Optional[ast.AST] = node
+    me = node
+    while cur is not None and not isinstance(cur, ast.stmt):
+        p = parent(cur)
+        if isinstance(p, ast.UnaryOp) and isinstance(p.op, ast.Not):
+            me = p
+        if isinstance(p, ast.BoolOp) and isinstance(p.op, ast.And):
+            top = cur
+            while parent(top) is not p:
+                top = parent(top)  # type: ignore[assignment]
+            out = []
+            for v in p.values:
+                if v is top or any(x is node for x in ast.walk(v)):
+                    continue
+                neg = ""
+                while isinstance(v, ast.UnaryOp) and isinstance(v.op, ast.Not):
+                    v, neg = v.operand, ("" if neg else "not ")
+                if isinstance(v, ast.Call) and isinstance(v.func, ast.Attribute) and v.func.attr in ("startswith", "endswith", "find", "index", "rfind"):
+                    out.append(f"{neg}{v.func.attr}:{const_str(v.args[0]) if v.args and const_str(v.args[0]) is not None else '<name>'}")
+                elif isinstance(v, ast.Compare) and len(v.ops) == 1:
+                    opn = type(v.ops[0]).__name__.lower()
+                    lit = const_str(v.left) if const_str(v.left) is not None else const_str(v.comparators[0])
+                    out.append(f"{neg}{opn}" + (f":{lit}" if lit is not None else ""))
+                else:
+                    out.append(f"{neg}other")
+            return ",".join(sorted(out))
+        cur = p
+    return ""
 
 
 def _enclosing_assign(n: ast.AST) -> Optional[ast.Assign]:
@@ -451,3 +488,44 @@ def _ancestors(n: ast.AST, stop: ast.AST):
     while p is not None and p is not stop:
         yield p
         p = parent(p)
+
+
+# ------------------------------------------------------------------------------------------------ R2.10 registry lookups use exact names
+def rule_exact_registry_lookups(repo: Repo, rep: Report, rule: str = "R2.10") -> None:
+    """The type resolvers find a schema by looking a *name* up in the schema registry (`<…>.schemas`).  The key must be a name exactly as
+    the IR carries it: a key that went through a normalising function (PascalCasing, lower-casing, stripping) makes distinct names
+    collide - a primitive property `address` is then typed as the model `Address`."""
+    n = 0
+    for m in repo.modules.values():
+        if ".types.resolvers." not in "." + m.name + ".":
+            continue
+        for q, fn in m.functions.items():
+            L = Locals(fn.node)
+            for node in own_nodes(fn.node):
+                key = None
+                if isinstance(node, ast.Compare) and len(node.ops) == 1 and isinstance(node.ops[0], (ast.In, ast.NotIn)) and isinstance(node.comparators[0], ast.Attribute) \
+                        and node.comparators[0].attr == "schemas":
+                    key = node.left
+                elif isinstance(node, ast.Subscript) and isinstance(node.value, ast.Attribute) and node.value.attr == "schemas":
+                    key = node.slice
+                elif isinstance(node, ast.Call) and isinstance(node.func, ast.Attribute) and node.func.attr == "get" and isinstance(node.func.value, ast.Attribute) \
+                        and node.func.value.attr == "schemas" and node.args:
+                    key = node.args[0]
+                if key is None:
+                    continue
+                n += 1
+                ki = L.inline(key, stop=tuple(L.params))
+                # taking the name out of a `$ref` string (split / partition / removeprefix) keeps it exact; everything else may normalise
+                EXTRACT = ("split", "rsplit", "partition", "rpartition", "removeprefix", "removesuffix")
+                calls = [c for c in ast.walk(ki) if isinstance(c, ast.Call) and not (isinstance(c.func, ast.Name) and c.func.id == "str")
+                         and not (isinstance(c.func, ast.Attribute) and c.func.attr in EXTRACT)]
+                # conditional expressions `f(x) if x else None` count as well (ast.walk covers them)
+                sub = f"{m.relpath}:{q} registry lookup `{norm(node)[:50]}`"
+                if calls:
+                    rep.violation(rule, sub, f"{m.name}:{q}|registry-key-transformed|{dotted(calls[0].func) or 'call'}",
+                                  f"the registry is searched with `{norm(ki)[:60]}`: `{dotted(calls[0].func) or norm(calls[0].func)}` maps different names to one key, so a "
+                                  "property whose key merely *normalises* to another schema's name (`address` / `Address`) is typed as that model", fn.loc(node))
+                else:
+                    rep.ok(rule, sub, "looked up by the name as the IR carries it", fn.loc(node))
+    rep.count(f"{rule}:registry_lookups", n)
+    rep.require(n >= 4, f"{rule}: only {n} schema-registry lookups found in types/resolvers (floor 4)")
